@@ -469,7 +469,7 @@ c_q = contract(M + "BMCI.predict_quantiles", prop=P, setup=_setup_q, pure=False,
 
 
 # ------------------------------------------------------------------ bounded: the real code in floating point against direct sums
-@bounded(P, "float-oracle", "random databases (1..300 entries, 1..5 channels, duplicates, constant x), random SPD covariances (diagonal and "
+@bounded(P, "float-oracle", "random databases (1..300 entries, 1..5 channels, duplicates, constant x, x with a spread of 1e-8 of its magnitude), random SPD covariances (diagonal and "
          "correlated, condition numbers up to 1e6), observations inside / at the edge / far outside, x2_max in {-1, 0, 0.1, 2, 50}, one random "
          "permutation of each database; oracle: direct weighted sums in numpy.longdouble; 60 (quick) / 600 (thorough) databases")
 def bounded_float_oracle(rng, tier):
@@ -500,7 +500,9 @@ def bounded_float_oracle(rng, tier):
         y = nprng.normal(size=(n, m)) * rng.choice([0.1, 1.0, 10.0])
         if n > 3 and rng.random() < 0.3:
             y[1] = y[0]                                         # duplicate entries
-        x = nprng.normal(size=n) if rng.random() < 0.85 else _np.full(n, 2.5)
+        xkind = rng.choice(["normal"] * 6 + ["const", "offset", "const-offset"])
+        x = {"normal": nprng.normal(size=n), "const": _np.full(n, 2.5), "offset": 101325.0 + 1e-3 * nprng.normal(size=n),
+             "const-offset": _np.full(n, 273.15)}[xkind]               # spread tiny against the magnitude: cancellation shows
         if rng.random() < 0.4:
             S = _np.diag(10.0 ** nprng.uniform(-3, 3, size=m))
         else:
@@ -544,13 +546,14 @@ def bounded_float_oracle(rng, tier):
                         if not (_np.isnan(xs[0]) and _np.isnan(sg[0]) and _np.all(_np.isnan(q)) and not isinstance(cF, _np.ndarray)):
                             problems.append("no entry with non-zero weight but the result is not NaN")
                     else:
-                        if not (close(xs[0], mean_w) and close(sg[0], sd_w, 1e-5)):
+                        sd_tol = 1e-5 * float(sd_w) + 1e-10 * (1 + float(_np.abs(b.x).max()))
+                        if not (close(xs[0], mean_w) and abs(float(sg[0]) - float(sd_w)) <= sd_tol):
                             problems.append("mean/std differ from the direct weighted sums: %r %r vs %r %r" % (xs[0], sg[0], float(mean_w), float(sd_w)))
                         if mean_f is not None and wall.sum() > 0:
                             share = float(1 - wts.sum() / wall.sum())
                             if abs(float(mean_w - mean_f)) > share * float(b.x.max() - b.x.min()) + 1e-9 * (1 + abs(float(mean_f))):
                                 problems.append("pruned estimate moved by more than the excluded weight share")
-                        if not (close(xs[0], xs2[0], 1e-6) and close(sg[0], sg2[0], 1e-5)):
+                        if not (close(xs[0], xs2[0], 1e-6) and abs(float(sg[0]) - float(sg2[0])) <= 2 * sd_tol):
                             problems.append("result depends on the order of the database")
                         if isinstance(cF, _np.ndarray) and cF.size:
                             if _np.any(_np.diff(cF) < -1e-12) or not close(cF[-1], 1.0) or _np.any(_np.diff(cx) < 0) \
